@@ -153,6 +153,33 @@ pub fn limb_key(i: u64) -> Vec<u8> {
     be
 }
 
+/// Pairs of different 8-byte messages that collide under a cheap UNKEYED 64-bit fingerprint a maintainer might reach
+/// for to avoid copying messages into a table: std's `DefaultHasher::new()` (zero-key SipHash-1-3) fed with
+/// `hasher.write(msg)` ("sip-write") or with `<[u8] as Hash>::hash(msg)` ("sip-hash": length prefix first). Found by a
+/// birthday search over 2^33 messages (tools/sipcollide). Such pairs look like any other messages to correct code.
+/// Only the pairs that still collide under the running toolchain's std are handed out (the algorithm behind
+/// `DefaultHasher` is not a stability promise), so a toolchain change can only thin the corpus, never raise an alarm.
+pub const FP_COLLISIONS: [(&str, [u8; 8], [u8; 8]); 5] = [
+    ("sip-write", [0x97, 0xc3, 0xde, 0xfb, 0x00, 0x00, 0x00, 0xa5], [0x4e, 0x38, 0x85, 0xee, 0x01, 0x00, 0x00, 0xa5]),
+    ("sip-write", [0x02, 0x08, 0x7e, 0x7e, 0x00, 0x00, 0x00, 0xa5], [0x0e, 0xaa, 0x49, 0x69, 0x01, 0x00, 0x00, 0xa5]),
+    ("sip-hash", [0xce, 0xca, 0xb3, 0xa5, 0x00, 0x00, 0x00, 0xa5], [0xa5, 0x78, 0x95, 0xd7, 0x01, 0x00, 0x00, 0xa5]),
+    ("sip-hash", [0x09, 0x47, 0xd8, 0x2c, 0x00, 0x00, 0x00, 0xa5], [0xa0, 0x0e, 0xf9, 0xd7, 0x01, 0x00, 0x00, 0xa5]),
+    ("sip-hash", [0xd5, 0x09, 0xb5, 0xa5, 0x01, 0x00, 0x00, 0xa5], [0xe2, 0xa4, 0xcb, 0xf2, 0x01, 0x00, 0x00, 0xa5]),
+];
+pub fn fp_collision_pairs() -> Vec<(&'static str, Vec<u8>, Vec<u8>)> {
+    use std::hash::{Hash, Hasher};
+    let fp = |kind: &str, m: &[u8]| -> u64 {
+        let mut h = std::collections::hash_map::DefaultHasher::new();
+        if kind == "sip-write" {
+            h.write(m);
+        } else {
+            m.hash(&mut h);
+        }
+        h.finish()
+    };
+    FP_COLLISIONS.iter().filter(|(k, a, b)| a != b && fp(k, a) == fp(k, b)).map(|(k, a, b)| (*k, a.to_vec(), b.to_vec())).collect()
+}
+
 /// Scalars k for which k*G1 / k*G2 (generators) has a compressed encoding whose coordinate begins with an EXTREME
 /// 32-bit word: the field modulus' own leading word 0x1a0111ea ("max": the coordinate is within 2^-32 of p) or
 /// zero ("min": the coordinate is below 2^349). About one point in 2^31 is of either kind; these were found once
